@@ -29,6 +29,8 @@ def bases(tier='thorough'):
     out['independent'] = [S.Struct('A', [M('a', 'u8')]), S.Struct('B', [M('b', 'u16')]), S.Struct('X', [M('x', 'u32', S.OPT)])]
     out['typedef_struct_chain'] = [S.Struct('F', [M('p', 'u8'), M('q', 'u64')]), S.Typedef('TF', 'F'), S.Typedef('TTF', 'TF'),
                                    S.Struct('X', [M('a', 'TTF', S.LIMITED, 2), M('b', 'TF', S.OPT)])]
+    out['typedef_sizer_chain'] = [S.Typedef('TLen', 'u32'), S.Typedef('TCount', 'TLen'), S.Typedef('TN', 'TCount'),
+                                  S.Struct('X', [M('n', 'TN'), M('d', 'u8', S.EXT, 'n'), M('m', 'TCount'), M('e', 'u16', S.EXT, 'm')])]
     if tier == 'thorough':
         out['five_layers'] = [S.Const('N', '2'), S.Enum('EN', [('EN_A', 'N'), ('EN_B', 'N + 3')]),
                               S.Struct('L1', [M('e', 'EN'), M('a', 'u8', S.FIXED, 'N')]),
